@@ -553,6 +553,87 @@ impl Family for Rows {
     }
 }
 
+/// a text value whose encoding is refused, followed by a replacement for the same column: the
+/// cells written before and after must arrive unchanged
+struct RecoverText;
+impl Family for RecoverText {
+    fn name(&self) -> String {
+        "refused-text-cell-then-replacement".into()
+    }
+    fn len(&self) -> u64 {
+        2 * 4 * 2
+    }
+    fn run(&self, idx: u64, st: &mut Stats) -> Result<(), Violation> {
+        use mysql_common::value::Value as V;
+        let d = digits(idx, &[2, 4, 2]);
+        let bad = if d[0] == 0 { Val::Myc(V::Date(2021, 13, 1, 0, 0, 0, 0)) } else { Val::Myc(V::Time(true, 0, 1, 0, 0, 0)) };
+        let pos = d[1] as usize;
+        let second_row = d[2] == 1;
+        st.nontrivial += 1;
+        st.bump("text_recoveries");
+        let cols = Arc::new((0..4).map(|i| col(&format!("c{}", i), ColumnType::MYSQL_TYPE_VAR_STRING, ColumnFlags::empty())).collect::<Vec<_>>());
+        let mut prog = vec![WOp::Start(cols)];
+        if second_row {
+            prog.push(WOp::WriteRow((0..4).map(|i| Val::I32(100 + i)).collect()));
+        }
+        for i in 0..4 {
+            if i == pos {
+                prog.push(WOp::WriteColOr(bad.clone(), Val::Null));
+            } else {
+                prog.push(WOp::WriteCol(Val::Str(format!("cell{}", i))));
+            }
+        }
+        prog.push(WOp::EndRow);
+        prog.push(WOp::Finish);
+        let conv = Conv::new(vec![q(b"x"), ping()]);
+        let s = conv.stream();
+        let stream = Arc::new(s.bytes);
+        let mut sim = sim_for(&stream, vec![]);
+        sim.log_ops = false;
+        let prog = Arc::new(prog);
+        let o = run_conn(sim, ConnCfg::new(Box::new(move |_, cb| match cb {
+            Cb::Query(_) => Behavior::Prog(prog.clone()),
+            _ => Behavior::Silent,
+        })));
+        if let ConnResult::Panic(l, m) = &o.res {
+            return Err(Violation::new(panic_key(l, m), format!("run_on panicked at {}: {}", l, m)));
+        }
+        let first_refused = o.calls.iter().any(|c| c.res.as_ref().err().map(|e| e == "first alternative refused").unwrap_or(false));
+        if !first_refused {
+            return Err(Violation::new("bad-cell-accepted", format!("{} at column {} was accepted", val_short(&bad), pos)));
+        }
+        if o.calls.iter().any(|c| c.res.as_ref().err().map(|e| e != "first alternative refused").unwrap_or(false)) {
+            st.bump("recovery_not_supported");
+            return match decode_all(&o.sim.out, &conv, &s.last_seq, 1, true) {
+                Ok(_) => Ok(()),
+                Err(e) if e.contains("server output ends where") => Ok(()),
+                Err(e) => Err(Violation::new("refused-but-emitted", e)),
+            };
+        }
+        if !o.res.is_ok() {
+            return Err(Violation::new("result-not-ok", format!("run_on returned {}", o.res.short())));
+        }
+        let dd = decode_all(&o.sim.out, &conv, &s.last_seq, 2, false).map_err(|e| Violation::new("row-undecodable", e))?;
+        match &dd.replies[0][..] {
+            [Unit::ResultSet { rows, .. }] if rows.len() == 1 + second_row as usize => {
+                let r = rows.last().unwrap();
+                for i in 0..4 {
+                    let want = if i == pos { Cell::Null } else { Cell::Text(format!("cell{}", i).into_bytes()) };
+                    if r[i] != want {
+                        return Err(Violation::new("recovered-row-differs", format!("refused value at column {} replaced by NULL: the client decodes {:?}", pos, r)));
+                    }
+                }
+            }
+            other => return Err(Violation::new("recovered-row-missing", format!("reply has {} units", other.len()))),
+        }
+        Ok(())
+    }
+    fn describe(&self, idx: u64) -> J {
+        let d = digits(idx, &[2, 4, 2]);
+        json!({"refused": if d[0] == 0 {"Value::Date with month 13"} else {"negative Value::Time"}, "column": d[1], "after_a_good_row": d[2] == 1})
+    }
+}
+
 pub fn build(quick: bool) -> Check {
     let pal = palette();
     let p = pal.len() as u64;
@@ -562,6 +643,7 @@ pub fn build(quick: bool) -> Check {
         Box::new(Temporal { quick }),
         Box::new(Bytes { lens: byte_lengths(quick) }),
         Box::new(Rows { pal, small }),
+        Box::new(RecoverText),
     ];
     if !quick {
         for w in 0..3 {
@@ -571,7 +653,7 @@ pub fn build(quick: bool) -> Check {
     Check {
         id: "C06",
         level: "model_checking",
-        rule: "values at the public to_mysql_text seam, decoded by refwire and by mysql_common's TextValue: u8/i8/u16/i16 exhaustive (u32/i32/finite f32 exhaustive in thorough); u64/i64/usize/isize/f64/f32 over all 2^k, 2^k+-1, 10^k+-1, bounds, subnormals, non-terminating fractions; every calendar date of years 0..9999, every second of a day x 4 microsecond values, every second of 0..838:59:59 x 4 microsecond values; byte strings of every length 0..300, 65534..65537 (and 2^24-1..2^24+1 in thorough) x 6 leading bytes incl. 0xFB..0xFF; Option, &T, String/str/Vec<u8>, mysql_common::Value variants; NULL vs \"\" vs \"NULL\". Through rows: every arrangement of <= 3 cells over a 15-value mixed palette and rotations for shapes up to 3x4, via write_col and write_row. Non-trivial = beyond what the unit tests sample (1, MAX, one date).".into(),
+        rule: "values at the public to_mysql_text seam, decoded by refwire and by mysql_common's TextValue: u8/i8/u16/i16 exhaustive (u32/i32/finite f32 exhaustive in thorough); u64/i64/usize/isize/f64/f32 over all 2^k, 2^k+-1, 10^k+-1, bounds, subnormals, non-terminating fractions; every calendar date of years 0..9999, every second of a day x 4 microsecond values, every second of 0..838:59:59 x 4 microsecond values; byte strings of every length 0..300, 65534..65537 (and 2^24-1..2^24+1 in thorough) x 6 leading bytes incl. 0xFB..0xFF; Option, &T, String/str/Vec<u8>, mysql_common::Value variants; NULL vs \"\" vs \"NULL\". Through rows: every arrangement of <= 3 cells over a 15-value mixed palette and rotations for shapes up to 3x4, via write_col and write_row; a refused text value (invalid generic date, negative generic time) at each column followed by a replacement. Non-trivial = beyond what the unit tests sample (1, MAX, one date).".into(),
         assumptions: vec![
             "a conformant client parses numeric text with the same-width standard parser; floats must round-trip bit-exactly".into(),
             "64-bit numeric domains are covered at lattices, not exhaustively".into(),
@@ -580,6 +662,6 @@ pub fn build(quick: bool) -> Check {
         exhaustive: true,
         caps_hit: vec![],
         families,
-        required: vec!["scalar_values", "dates", "times_of_day", "durations", "strings_beyond_65535", "row_arrangements"],
+        required: vec!["scalar_values", "dates", "times_of_day", "durations", "strings_beyond_65535", "row_arrangements", "text_recoveries"],
     }
 }
